@@ -80,7 +80,22 @@ impl Prop for C14 {
         let mut v = Vec::new();
         for _ in 0..n {
             let tables = r.p(30);
-            let html = gen_doc(r, knobs(tables)).0;
+            let mut html = gen_doc(r, knobs(tables)).0;
+            // an id'd element whose first content is a table (or a prefixed block) with nothing before it in its renderer:
+            // the marker is pending when the first row / first sub-renderer line is added (added after the seeded change
+            // C14-row-lines-spliced-past-pending-markers)
+            if r.p(15) {
+                let inner = *r.pick(&[&"<table><tr><td>qta</td><td>qtb</td></tr></table>", &"<table><tr><td>qta</td></tr><tr><td>qtc</td></tr></table>qtd", &"<blockquote>qta qtb</blockquote>", &"<ul><li>qta</li></ul>"]);
+                let t = match r.b(6) {
+                    0 => format!("<div id=\"zq1\">{inner}</div>"),
+                    1 => format!("<ul><li id=\"zq1\">{inner}qte</li></ul>"),
+                    2 => format!("<blockquote id=\"zq1\">{inner}</blockquote>"),
+                    3 => format!("<dl><dt>qtt</dt><dd id=\"zq1\">{inner}</dd></dl>"),
+                    4 => format!("<span id=\"zq1\">{inner}</span>"),
+                    _ => format!("<a name=\"zq1\">{inner}</a>"),
+                };
+                html = if r.p(50) { format!("{t}{html}") } else { format!("{html}{t}") };
+            }
             for _ in 0..(if tier == Tier::Quick { 3 } else { 5 }) {
                 let mut cfg = if r.p(60) { Cfg::rich() } else { Cfg::base(Deco::Plain) };
                 cfg.route = Route::Lines;
